@@ -171,187 +171,198 @@ func runC05(r *mc.Run) {
 	}
 	pckCrlURL := world.URLPckCrl("platform")
 	fInterNYV := world.MakeCert(world.CertSpec{CN: world.CNPlatform, IsCA: true, Key: F.InterKey, MaxPathLen: -1, NotBefore: world.T0.AddDate(0, 0, 1), NotAfter: world.T0.AddDate(10, 0, 0)}, F.Root, F.RootKey)
-	r.Explore("revocation-worlds", bound, func(c *mc.Ctx) {
-		e := envs[c.Choose("serial-shape", len(envs))]
-		w, pki, tcb2, tcb2Key, rootDP := e.w, e.pki, e.tcb2, e.tcb2Key, e.rootDP
-		leafSN, interSN, tcbSN, qeSN := e.leafSN, e.interSN, e.tcbSN, e.qeSN
-		pckSets, rootSets, pckSigners, rootSigners := e.pckSets, e.rootSets, e.pckSigners, e.rootSigners
-		ps := c.Choose("pck.revoked", len(pckSets))
-		rs := c.Choose("root.revoked", len(rootSets))
-		psg := c.Choose("pck.signer", len(pckSigners))
-		rsg := c.Choose("root.signer", len(rootSigners))
-		pep := c.Choose("pck.endpoint", len(endpoints))
-		rep := c.Choose("root.endpoint", len(endpoints))
-		dp := c.Choose("root.dps", len(dps))
-		ph := c.Choose("pck.header", 7)
-		opt := c.Choose("options", 3)
-		rk := c.Choose("entry.reason", 12)
-		reason := []int{0, 1, 8, 6, 10, 0, 0, 0, 0, 0, 0, 0}[rk] // none, keyCompromise, removeFromCRL, certificateHold, aACompromise, then entry extensions
-		var entryExts, firstExts []pkix.Extension
-		// certificateIssuer (2.5.29.29) naming another CA / the CRL issuer's own common name, on the FIRST entry only:
-		// these CRLs are direct ones (no issuingDistributionPoint), so every entry is about the CRL issuer's certificates
-		otherCA := func(cn string, critical bool) []pkix.Extension {
-			name := world.DERSeq(world.DER(0x31, world.DERSeq(world.DER(0x06, []byte{0x55, 0x04, 0x03}), world.DER(0x0c, []byte(cn)))))
-			return []pkix.Extension{{Id: asn1.ObjectIdentifier{2, 5, 29, 29}, Critical: critical, Value: world.DERSeq(world.DER(0xa4, name))}}
+	for _, lvl := range []int{0, 2} {
+		world.SetLogLevel(lvl)
+		exName, exBound := "revocation-worlds", bound
+		if lvl != 0 {
+			exName, exBound = "revocation-worlds/log-level=2", 1
 		}
-		switch rk {
-		case 5: // an extension nobody knows, marked critical
-			entryExts = []pkix.Extension{{Id: asn1.ObjectIdentifier{1, 3, 6, 1, 4, 1, 99999, 1}, Critical: true, Value: []byte{0x05, 0x00}}}
-		case 6: // ... not critical
-			entryExts = []pkix.Extension{{Id: asn1.ObjectIdentifier{1, 3, 6, 1, 4, 1, 99999, 1}, Value: []byte{0x05, 0x00}}}
-		case 7: // invalidityDate
-			entryExts = []pkix.Extension{{Id: asn1.ObjectIdentifier{2, 5, 29, 24}, Value: []byte{0x18, 0x0f, '2', '0', '2', '8', '0', '1', '0', '1', '0', '0', '0', '0', '0', '0', 'Z'}}}
-		case 8: // critical reasonCode
-			entryExts = []pkix.Extension{{Id: asn1.ObjectIdentifier{2, 5, 29, 21}, Critical: true, Value: []byte{0x0a, 0x01, 0x01}}}
-		case 9:
-			firstExts = otherCA("Some Other Issuing CA", true)
-		case 10:
-			firstExts = otherCA("Some Other Issuing CA", false)
-		case 11: // on every entry
-			entryExts = otherCA("Some Other Issuing CA", true)
-		}
-		// revocation date of the entries relative to the verification time: a listed certificate is revoked whenever its entry is dated
-		revAt := []time.Time{{}, world.T0, world.T0.Add(time.Second), world.T0.AddDate(0, 0, 14)}[c.Choose("entry.date", 4)]
-		id := "crl/" + c.ID()
-		if !r.Want(id) {
-			return
-		}
-		pckCrl := world.MakeCRL(world.CRLSpec{Issuer: pckSigners[psg].issuer, Signer: pckSigners[psg].key, Revoked: pckSets[ps].list, Reason: reason, RevokedAt: revAt, EntryExts: entryExts, FirstEntryExts: firstExts})
-		rootCrl := world.MakeCRL(world.CRLSpec{Issuer: rootSigners[rsg].issuer, Signer: rootSigners[rsg].key, Revoked: rootSets[rs].list, Reason: reason, RevokedAt: revAt, EntryExts: entryExts, FirstEntryExts: firstExts})
-		fPck := world.MakeCRL(world.CRLSpec{Issuer: F.Inter, Signer: F.InterKey})
-		fRoot := world.MakeCRL(world.CRLSpec{Issuer: F.Root, Signer: F.RootKey})
-		serve := func(kind string, own, other, f []byte, hdr map[string][]string) world.Response {
-			switch kind {
-			case "error":
-				return world.Response{Err: errors.New("503")}
-			case "empty":
-				return world.Response{Header: hdr, Body: nil}
-			case "garbage":
-				return world.Response{Header: hdr, Body: world.Fill("crl-garbage", 200)}
-			case "pem":
-				return world.Response{Header: hdr, Body: world.PEMBlock("X509 CRL", own)}
-			case "other-crl":
-				return world.Response{Header: hdr, Body: other}
-			case "F-crl":
-				return world.Response{Header: hdr, Body: f}
-			case "truncated":
-				return world.Response{Header: hdr, Body: own[:len(own)-7]}
+		r.Explore(exName, exBound, func(c *mc.Ctx) {
+			e := envs[c.Choose("serial-shape", len(envs))]
+			w, pki, tcb2, tcb2Key, rootDP := e.w, e.pki, e.tcb2, e.tcb2Key, e.rootDP
+			leafSN, interSN, tcbSN, qeSN := e.leafSN, e.interSN, e.tcbSN, e.qeSN
+			pckSets, rootSets, pckSigners, rootSigners := e.pckSets, e.rootSets, e.pckSigners, e.rootSigners
+			ps := c.Choose("pck.revoked", len(pckSets))
+			rs := c.Choose("root.revoked", len(rootSets))
+			psg := c.Choose("pck.signer", len(pckSigners))
+			rsg := c.Choose("root.signer", len(rootSigners))
+			pep := c.Choose("pck.endpoint", len(endpoints))
+			rep := c.Choose("root.endpoint", len(endpoints))
+			dp := c.Choose("root.dps", len(dps))
+			ph := c.Choose("pck.header", 7)
+			opt := c.Choose("options", 3)
+			rk := c.Choose("entry.reason", 12)
+			reason := []int{0, 1, 8, 6, 10, 0, 0, 0, 0, 0, 0, 0}[rk] // none, keyCompromise, removeFromCRL, certificateHold, aACompromise, then entry extensions
+			var entryExts, firstExts []pkix.Extension
+			// certificateIssuer (2.5.29.29) naming another CA / the CRL issuer's own common name, on the FIRST entry only:
+			// these CRLs are direct ones (no issuingDistributionPoint), so every entry is about the CRL issuer's certificates
+			otherCA := func(cn string, critical bool) []pkix.Extension {
+				name := world.DERSeq(world.DER(0x31, world.DERSeq(world.DER(0x06, []byte{0x55, 0x04, 0x03}), world.DER(0x0c, []byte(cn)))))
+				return []pkix.Extension{{Id: asn1.ObjectIdentifier{2, 5, 29, 29}, Critical: critical, Value: world.DERSeq(world.DER(0xa4, name))}}
 			}
-			return world.Response{Header: hdr, Body: own}
-		}
-		g := w.Getter.Clone()
-		g.Responses[world.URLQeIdentity] = world.Response{Header: map[string][]string{world.HdrQeIdentity: {world.IssuerChainHeader(tcb2, pki.Root)}},
-			Body: world.SignedBody("enclaveIdentity", w.QeRaw, tcb2Key)}
-		pckHdr := w.PckHdr
-		switch ph {
-		case 1: // a self-consistent look-alike issuer chain (same names) accompanying the CRL
-			pckHdr = map[string][]string{world.HdrPckCrl: {world.IssuerChainHeader(F.Inter, F.Root)}}
-		case 2: // look-alike CA under the genuine root
-			pckHdr = map[string][]string{world.HdrPckCrl: {world.IssuerChainHeader(F.Inter, pki.Root)}}
-		case 3: // the issuer chain of whoever signed this CRL
-			pckHdr = map[string][]string{world.HdrPckCrl: {world.IssuerChainHeader(pckSigners[psg].issuer, pki.Root)}}
-		case 4: // the root CA's own chain
-			pckHdr = map[string][]string{world.HdrPckCrl: {world.IssuerChainHeader(pki.Root, pki.Root)}}
-		case 5: // look-alike chain whose CA certificate is not yet valid (a validity error must not replace the trust decision)
-			pckHdr = map[string][]string{world.HdrPckCrl: {world.IssuerChainHeader(fInterNYV, F.Root)}}
-		case 6: // ... under the genuine root
-			pckHdr = map[string][]string{world.HdrPckCrl: {world.IssuerChainHeader(fInterNYV, pki.Root)}}
-		}
-		g.Responses[pckCrlURL] = serve(endpoints[pep], pckCrl, rootCrl, fPck, pckHdr)
-		rootResp := serve(endpoints[rep], rootCrl, pckCrl, fRoot, nil)
-		bad := world.Response{Err: errors.New("404")}
-		dpBenign := true
-		switch dps[dp] {
-		case "one":
-			g.Responses[world.RootCRLURL] = rootResp
-		case "none":
-			g.Responses[world.URLQeIdentity] = world.Response{Header: map[string][]string{world.HdrQeIdentity: {world.IssuerChainHeader(tcb2, rootDP["none"])}}, Body: g.Responses[world.URLQeIdentity].Body}
-			g.Responses[world.RootCRLURL] = rootResp
-			dpBenign = false
-		default:
-			g.Responses[world.URLQeIdentity] = world.Response{Header: map[string][]string{world.HdrQeIdentity: {world.IssuerChainHeader(tcb2, rootDP["two"])}}, Body: g.Responses[world.URLQeIdentity].Body}
-			g.Responses[world.RootCRLURL], g.Responses[dp2] = rootResp, rootResp
+			switch rk {
+			case 5: // an extension nobody knows, marked critical
+				entryExts = []pkix.Extension{{Id: asn1.ObjectIdentifier{1, 3, 6, 1, 4, 1, 99999, 1}, Critical: true, Value: []byte{0x05, 0x00}}}
+			case 6: // ... not critical
+				entryExts = []pkix.Extension{{Id: asn1.ObjectIdentifier{1, 3, 6, 1, 4, 1, 99999, 1}, Value: []byte{0x05, 0x00}}}
+			case 7: // invalidityDate
+				entryExts = []pkix.Extension{{Id: asn1.ObjectIdentifier{2, 5, 29, 24}, Value: []byte{0x18, 0x0f, '2', '0', '2', '8', '0', '1', '0', '1', '0', '0', '0', '0', '0', '0', 'Z'}}}
+			case 8: // critical reasonCode
+				entryExts = []pkix.Extension{{Id: asn1.ObjectIdentifier{2, 5, 29, 21}, Critical: true, Value: []byte{0x0a, 0x01, 0x01}}}
+			case 9:
+				firstExts = otherCA("Some Other Issuing CA", true)
+			case 10:
+				firstExts = otherCA("Some Other Issuing CA", false)
+			case 11: // on every entry
+				entryExts = otherCA("Some Other Issuing CA", true)
+			}
+			// revocation date of the entries relative to the verification time: a listed certificate is revoked whenever its entry is dated
+			revAt := []time.Time{{}, world.T0, world.T0.Add(time.Second), world.T0.AddDate(0, 0, 14)}[c.Choose("entry.date", 4)]
+			id := "crl/" + c.ID() + world.LogTag()
+			if !r.Want(id) {
+				return
+			}
+			pckCrl := world.MakeCRL(world.CRLSpec{Issuer: pckSigners[psg].issuer, Signer: pckSigners[psg].key, Revoked: pckSets[ps].list, Reason: reason, RevokedAt: revAt, EntryExts: entryExts, FirstEntryExts: firstExts})
+			rootCrl := world.MakeCRL(world.CRLSpec{Issuer: rootSigners[rsg].issuer, Signer: rootSigners[rsg].key, Revoked: rootSets[rs].list, Reason: reason, RevokedAt: revAt, EntryExts: entryExts, FirstEntryExts: firstExts})
+			fPck := world.MakeCRL(world.CRLSpec{Issuer: F.Inter, Signer: F.InterKey})
+			fRoot := world.MakeCRL(world.CRLSpec{Issuer: F.Root, Signer: F.RootKey})
+			serve := func(kind string, own, other, f []byte, hdr map[string][]string) world.Response {
+				switch kind {
+				case "error":
+					return world.Response{Err: errors.New("503")}
+				case "empty":
+					return world.Response{Header: hdr, Body: nil}
+				case "garbage":
+					return world.Response{Header: hdr, Body: world.Fill("crl-garbage", 200)}
+				case "pem":
+					return world.Response{Header: hdr, Body: world.PEMBlock("X509 CRL", own)}
+				case "other-crl":
+					return world.Response{Header: hdr, Body: other}
+				case "F-crl":
+					return world.Response{Header: hdr, Body: f}
+				case "truncated":
+					return world.Response{Header: hdr, Body: own[:len(own)-7]}
+				}
+				return world.Response{Header: hdr, Body: own}
+			}
+			g := w.Getter.Clone()
+			g.Responses[world.URLQeIdentity] = world.Response{Header: map[string][]string{world.HdrQeIdentity: {world.IssuerChainHeader(tcb2, pki.Root)}},
+				Body: world.SignedBody("enclaveIdentity", w.QeRaw, tcb2Key)}
+			pckHdr := w.PckHdr
+			switch ph {
+			case 1: // a self-consistent look-alike issuer chain (same names) accompanying the CRL
+				pckHdr = map[string][]string{world.HdrPckCrl: {world.IssuerChainHeader(F.Inter, F.Root)}}
+			case 2: // look-alike CA under the genuine root
+				pckHdr = map[string][]string{world.HdrPckCrl: {world.IssuerChainHeader(F.Inter, pki.Root)}}
+			case 3: // the issuer chain of whoever signed this CRL
+				pckHdr = map[string][]string{world.HdrPckCrl: {world.IssuerChainHeader(pckSigners[psg].issuer, pki.Root)}}
+			case 4: // the root CA's own chain
+				pckHdr = map[string][]string{world.HdrPckCrl: {world.IssuerChainHeader(pki.Root, pki.Root)}}
+			case 5: // look-alike chain whose CA certificate is not yet valid (a validity error must not replace the trust decision)
+				pckHdr = map[string][]string{world.HdrPckCrl: {world.IssuerChainHeader(fInterNYV, F.Root)}}
+			case 6: // ... under the genuine root
+				pckHdr = map[string][]string{world.HdrPckCrl: {world.IssuerChainHeader(fInterNYV, pki.Root)}}
+			}
+			g.Responses[pckCrlURL] = serve(endpoints[pep], pckCrl, rootCrl, fPck, pckHdr)
+			rootResp := serve(endpoints[rep], rootCrl, pckCrl, fRoot, nil)
+			bad := world.Response{Err: errors.New("404")}
+			dpBenign := true
 			switch dps[dp] {
-			case "two:bad,ok":
-				g.Responses[world.RootCRLURL] = bad
-			case "two:ok,bad":
-				g.Responses[dp2] = bad
-			case "two:bad,bad":
-				g.Responses[world.RootCRLURL], g.Responses[dp2] = bad, bad
+			case "one":
+				g.Responses[world.RootCRLURL] = rootResp
+			case "none":
+				g.Responses[world.URLQeIdentity] = world.Response{Header: map[string][]string{world.HdrQeIdentity: {world.IssuerChainHeader(tcb2, rootDP["none"])}}, Body: g.Responses[world.URLQeIdentity].Body}
+				g.Responses[world.RootCRLURL] = rootResp
 				dpBenign = false
+			default:
+				g.Responses[world.URLQeIdentity] = world.Response{Header: map[string][]string{world.HdrQeIdentity: {world.IssuerChainHeader(tcb2, rootDP["two"])}}, Body: g.Responses[world.URLQeIdentity].Body}
+				g.Responses[world.RootCRLURL], g.Responses[dp2] = rootResp, rootResp
+				switch dps[dp] {
+				case "two:bad,ok":
+					g.Responses[world.RootCRLURL] = bad
+				case "two:ok,bad":
+					g.Responses[dp2] = bad
+				case "two:bad,bad":
+					g.Responses[world.RootCRLURL], g.Responses[dp2] = bad, bad
+					dpBenign = false
+				}
 			}
-		}
-		now := w.Now
-		o := &verify.Options{GetCollateral: true, CheckRevocations: true, Getter: g, Now: &now, TrustedRoots: w.Roots}
-		switch opt {
-		case 1:
-			o.GetCollateral = false // revocation without collateral must always fail
-		case 2:
-			o.CheckRevocations = false // L1: CRLs must not matter at all
-		}
-		err := world.SafeVerifyRaw(w.Raw(), o)
-		// reference condition, evaluated on the bytes each endpoint actually served
-		crlGood := func(resp world.Response, ca *x509.Certificate, targets ...*big.Int) bool {
-			if resp.Err != nil {
-				return false
+			now := w.Now
+			o := &verify.Options{GetCollateral: true, CheckRevocations: true, Getter: g, Now: &now, TrustedRoots: w.Roots}
+			switch opt {
+			case 1:
+				o.GetCollateral = false // revocation without collateral must always fail
+			case 2:
+				o.CheckRevocations = false // L1: CRLs must not matter at all
 			}
-			crl, perr := x509.ParseRevocationList(resp.Body)
-			if perr != nil || crl.Issuer.String() != ca.Subject.String() || crl.CheckSignatureFrom(ca) != nil {
-				return false
-			}
-			for _, rc := range crl.RevokedCertificateEntries {
-				for _, t := range targets {
-					if rc.SerialNumber.Cmp(t) == 0 {
-						return false
+			err := world.SafeVerifyRaw(w.Raw(), o)
+			// reference condition, evaluated on the bytes each endpoint actually served
+			crlGood := func(resp world.Response, ca *x509.Certificate, targets ...*big.Int) bool {
+				if resp.Err != nil {
+					return false
+				}
+				crl, perr := x509.ParseRevocationList(resp.Body)
+				if perr != nil || crl.Issuer.String() != ca.Subject.String() || crl.CheckSignatureFrom(ca) != nil {
+					return false
+				}
+				for _, rc := range crl.RevokedCertificateEntries {
+					for _, t := range targets {
+						if rc.SerialNumber.Cmp(t) == 0 {
+							return false
+						}
 					}
 				}
+				return true
 			}
-			return true
-		}
-		pckGood := crlGood(g.Responses[pckCrlURL], pki.Inter, leafSN)
-		rootGood := false
-		switch dps[dp] {
-		case "one":
-			rootGood = crlGood(g.Responses[world.RootCRLURL], pki.Root, interSN, tcbSN, qeSN)
-		case "none":
-		default:
-			// the first distribution point that answers with a parseable CRL is the one obtained
-			for _, u := range []string{world.RootCRLURL, dp2} {
-				resp := g.Responses[u]
-				if resp.Err != nil {
-					continue
+			pckGood := crlGood(g.Responses[pckCrlURL], pki.Inter, leafSN)
+			rootGood := false
+			switch dps[dp] {
+			case "one":
+				rootGood = crlGood(g.Responses[world.RootCRLURL], pki.Root, interSN, tcbSN, qeSN)
+			case "none":
+			default:
+				// the first distribution point that answers with a parseable CRL is the one obtained
+				for _, u := range []string{world.RootCRLURL, dp2} {
+					resp := g.Responses[u]
+					if resp.Err != nil {
+						continue
+					}
+					if _, perr := x509.ParseRevocationList(resp.Body); perr != nil {
+						continue
+					}
+					rootGood = crlGood(resp, pki.Root, interSN, tcbSN, qeSN)
+					break
 				}
-				if _, perr := x509.ParseRevocationList(resp.Body); perr != nil {
-					continue
-				}
-				rootGood = crlGood(resp, pki.Root, interSN, tcbSN, qeSN)
-				break
 			}
-		}
-		_ = dpBenign
-		cond := pckGood && rootGood
-		out := verdict(err)
-		detail := map[string]any{"pck_crl_hex": hexs(g.Responses[pckCrlURL].Body), "root_crl_hex": hexs(rootResp.Body), "urls": g.Log}
-		switch {
-		case world.IsPanic(err):
-			// C10
-		case opt == 1 && err == nil:
-			r.Violate("accepted:revocation-without-collateral", id, "CheckRevocations without GetCollateral was accepted", detail)
-			out = "accept!"
-		case opt == 0 && err == nil && !cond:
-			r.Violate("accepted:"+c05Why(pckSets[ps].benign, rootSets[rs].benign, pckSigners[psg].ok, rootSigners[rsg].ok, endpoints[pep], endpoints[rep], dps[dp], rootSets[rs].name), id,
-				"quote accepted with revocation checking although a CRL is missing, unauthenticated or lists a certificate of the chain", detail)
-			out = "accept!"
-		case opt == 0 && err != nil && cond:
-			r.Violate("rejected-clean:"+c05Benign(pckSets[ps].name, rootSets[rs].name, dps[dp]), id, "quote rejected although both CRLs are genuine and list none of its certificates: "+errStr(err), detail)
-			out = "reject!"
-		case opt == 2 && err != nil:
-			r.Violate("crl-matters-without-revocation-checking", id, "with revocation checking off the verdict still depends on CRL state: "+errStr(err), detail)
-			out = "reject!"
-		}
-		r.Eval(id, c.Deviations() > 0, fmt.Sprintf("opt%d:cond=%v/%s", opt, cond, out))
-	})
+			_ = dpBenign
+			cond := pckGood && rootGood
+			out := verdict(err)
+			detail := map[string]any{"pck_crl_hex": hexs(g.Responses[pckCrlURL].Body), "root_crl_hex": hexs(rootResp.Body), "urls": g.Log}
+			switch {
+			case world.IsPanic(err):
+				// C10
+			case opt == 1 && err == nil:
+				r.Violate("accepted:revocation-without-collateral", id, "CheckRevocations without GetCollateral was accepted", detail)
+				out = "accept!"
+			case opt == 0 && err == nil && !cond:
+				r.Violate("accepted:"+c05Why(pckSets[ps].benign, rootSets[rs].benign, pckSigners[psg].ok, rootSigners[rsg].ok, endpoints[pep], endpoints[rep], dps[dp], rootSets[rs].name), id,
+					"quote accepted with revocation checking although a CRL is missing, unauthenticated or lists a certificate of the chain", detail)
+				out = "accept!"
+			case opt == 0 && err != nil && cond:
+				r.Violate("rejected-clean:"+c05Benign(pckSets[ps].name, rootSets[rs].name, dps[dp]), id, "quote rejected although both CRLs are genuine and list none of its certificates: "+errStr(err), detail)
+				out = "reject!"
+			case opt == 2 && err != nil:
+				r.Violate("crl-matters-without-revocation-checking", id, "with revocation checking off the verdict still depends on CRL state: "+errStr(err), detail)
+				out = "reject!"
+			}
+			r.Eval(id, c.Deviations() > 0, fmt.Sprintf("opt%d:cond=%v/%s", opt, cond, out))
+		})
+	}
+	world.SetLogLevel(0)
 	c05Positions(r, envs[0])
+	world.SetLogLevel(2)
+	c05Positions(r, envs[0])
+	world.SetLogLevel(0)
 }
 
 // c05Positions: the revoked certificate's entry at EVERY index of CRLs of several sizes (one entry .. 300 entries;
@@ -374,7 +385,7 @@ func c05Positions(r *mc.Run, e *c05env) {
 	}
 	done := r.Parallel(len(jobs), func(i int) {
 		j := jobs[i]
-		id := fmt.Sprintf("crl-position/%s/entries=%d,at=%d", j.target, j.n, j.at)
+		id := fmt.Sprintf("crl-position/%s/entries=%d,at=%d", j.target, j.n, j.at) + world.LogTag()
 		if !r.Want(id) {
 			return
 		}
@@ -409,7 +420,7 @@ func c05Positions(r *mc.Run, e *c05env) {
 		}
 		r.Eval(id, true, fmt.Sprintf("position:listed=%v/%s", j.at >= 0, out))
 	})
-	r.SectionDone(mc.Section{Name: "crl-entry-positions", Evaluations: int64(done), Exhaustive: done == len(jobs), Note: "every index of CRLs of 15 sizes (leaf), of 3 sizes (intermediate and the two collateral signers)"})
+	r.SectionDone(mc.Section{Name: "crl-entry-positions" + world.LogTag(), Evaluations: int64(done), Exhaustive: done == len(jobs), Note: "every index of CRLs of 15 sizes (leaf), of 3 sizes (intermediate and the two collateral signers)"})
 }
 
 func c05Why(pckBenign, rootBenign, pckSigOK, rootSigOK bool, pep, rep, dp, rootSet string) string {
